@@ -414,6 +414,16 @@ def execute(case):
                 res = lib(lambda: T.grad.grad(val, leaves2["x1"], list(idxs)))
                 want = idxs
             ck.require(isinstance(res, list) and len(res) == len(want), "grad_api_len", "grad.grad returned %s" % type(res))
+            if ck.failed is None and case["seed"] % 2 == 0:
+                # the returned derivative belongs to the caller: a later backward pass through the same leaves (the next
+                # gradient the user computes, for this or another operand) must not change it
+                ck.label("grad_api_later_backward")
+                snap = [None if r is None else r.detach().clone() for r in res]
+                later = evaluate(T, case, c, False)[0]
+                if getattr(later, "requires_grad", False):
+                    lib(lambda: later.backward())
+                    ck.require(all((a is None and b is None) or (a is not None and b is not None and torch.equal(a, b)) for a, b in zip(snap, res)),
+                               "grad_api_result_overwritten", "the list returned by grad.grad changed when another backward pass ran")
             if ck.failed is None:
                 for i, r in zip(want, res):
                     refs = [a for (l, j, _), a in zip(tracked, gtt) if l == "x1" and j == i]
